@@ -221,6 +221,22 @@ def run_case(ctx, case):
         ctx.fail(case, f"{flav}: encoded bytes differ from the reference layout at {where or 'length'}")
         ctx.case(case, nontrivial)
         return
+    # the bytes of the parts: every operand's own bytes() / its ctypes structure are the bytes it contributes to its command,
+    # and an instruction's serialize() / bytes() are its 7 bytes of the subroutine
+    for i, ins_ in enumerate(sub.instructions):
+        mine_ = raw[4 + 7 * i:11 + 7 * i]
+        ctx.count("part_byte_comparisons")
+        if ins_.serialize() != mine_:
+            ctx.fail(case, f"{flav}: instruction {i} {case['instrs'][i]}: serialize() gives {ins_.serialize().hex()}, in the subroutine it is {mine_.hex()}")
+            return ctx.case(case, nontrivial)
+        for o in ins_.operands:
+            if hasattr(o, "cstruct") and bytes(o) != bytes(o.cstruct):
+                ctx.fail(case, f"{flav}: operand {o} of instruction {i}: bytes(operand) = {bytes(o).hex()} but its structure in the command is "
+                               f"{bytes(o.cstruct).hex()}")
+                return ctx.case(case, nontrivial)
+            if hasattr(o, "cstruct") and bytes(o.cstruct) not in mine_:
+                ctx.fail(case, f"{flav}: operand {o} of instruction {i}: its bytes {bytes(o.cstruct).hex()} do not occur in the command {mine_.hex()}")
+                return ctx.case(case, nontrivial)
     # direction 2: reference bytes decoded by the repo
     ctx.count("reference_decodes")
     dec = deserialize(ref, flavour=fobj)
